@@ -110,6 +110,7 @@ pub struct EnvInner {
     pub trace: Vec<Ev>,
     pub radio_calls: usize,
     pub fault_at: Option<usize>,
+    pub fault_len: usize,
     pub faults_injected: usize,
     // rng
     pub rng_script: Vec<u32>,
@@ -151,6 +152,7 @@ impl Env {
             trace: vec![],
             radio_calls: 0,
             fault_at: None,
+            fault_len: 1,
             faults_injected: 0,
             rng_script: vec![],
             rng_pos: 0,
@@ -188,7 +190,7 @@ impl Env {
         let mut e = self.0.borrow_mut();
         let k = e.radio_calls;
         e.radio_calls += 1;
-        if e.fault_at == Some(k) {
+        if e.fault_at.map(|f| k >= f && k < f + e.fault_len.max(1)).unwrap_or(false) {
             e.faults_injected += 1;
             e.trace.push(Ev::Fault(k));
             return Err(RadioFault);
